@@ -34,11 +34,13 @@ type c03Pred struct {
 	Right *c03Pred `json:"right,omitempty"`
 	// leaf
 	Agg *c03Agg `json:"agg,omitempty"` // HAVING leaf: aggregate on the left-hand side
-	Col string  `json:"col,omitempty"` // WHERE leaf: column on the left-hand side
+	// HAVING leaf: the aggregate is named by the alias it has in the select list (HAVING r0 > 3), not spelled out
+	Alias string `json:"alias,omitempty"`
+	Col   string `json:"col,omitempty"` // WHERE leaf: column on the left-hand side
 	// WHERE leaf: EXISTS (SELECT w FROM n GROUP BY w HAVING COUNT(*) >= ExistsK) over the row's nested array n
-	ExistsK int `json:"exists_k,omitempty"`
-	Op  string  `json:"op,omitempty"`
-	K   float64 `json:"k"`
+	ExistsK int     `json:"exists_k,omitempty"`
+	Op      string  `json:"op,omitempty"`
+	K       float64 `json:"k"`
 }
 
 type c03Expect struct {
@@ -53,10 +55,10 @@ type c03Expect struct {
 	Rows2    []any      `json:"rows2,omitempty"` // expected result of a second Exec when it differs (WHERE reads a variable the query writes)
 	Len2     [][]string `json:"lenient2,omitempty"`
 	HasRows2 bool       `json:"has_rows2,omitempty"`
-	Wrap     string     `json:"wrap,omitempty"` // "" | derived | cte: the grouped query sits in a derived table / CTE
+	Wrap     string     `json:"wrap,omitempty"`      // "" | derived | cte: the grouped query sits in a derived table / CTE
 	OverJoin bool       `json:"over_join,omitempty"` // the grouped rows come from a join: only run-to-run identity is decided
-	Rows     []any      `json:"rows"`           // expected exact sequence
-	Lenient  [][]string `json:"lenient"`        // per output row: aliases whose value the statement leaves open
+	Rows     []any      `json:"rows"`                // expected exact sequence
+	Lenient  [][]string `json:"lenient"`             // per output row: aliases whose value the statement leaves open
 }
 
 func (a c03Agg) sql() string {
@@ -76,6 +78,9 @@ func (p *c03Pred) sql() string {
 	lhs := p.Col
 	if p.Agg != nil {
 		lhs = p.Agg.sql()
+		if p.Alias != "" {
+			lhs = p.Alias
+		}
 	}
 	return fmt.Sprintf("%s %s %s", lhs, p.Op, trimFloat(p.K))
 }
@@ -336,6 +341,22 @@ func drawAgg(t *rapid.T, label string) c03Agg {
 	return a
 }
 
+// byAlias makes (some of) the leaves of a HAVING tree refer to an aggregate of
+// the select list through its alias.
+func (p *c03Pred) byAlias(t *rapid.T, aggs []c03Agg) {
+	if p.Conn != "" {
+		p.Left.byAlias(t, aggs)
+		p.Right.byAlias(t, aggs)
+		return
+	}
+	if p.Agg == nil || rapid.IntRange(0, 3).Draw(t, "leaf_spelled_out") == 0 {
+		return
+	}
+	a := aggs[rapid.IntRange(0, len(aggs)-1).Draw(t, "alias_of")]
+	p.Agg = &c03Agg{Fn: a.Fn, Col: a.Col}
+	p.Alias = a.Alias
+}
+
 func drawHavingPred(t *rapid.T, depth int) *c03Pred {
 	if depth >= 1 || rapid.IntRange(0, 2).Draw(t, "h_leaf") > 0 {
 		a := drawAgg(t, "h_")
@@ -492,6 +513,10 @@ func genC03(t *rapid.T) *Bundle {
 		a := drawAgg(t, "a_")
 		a.Alias = fmt.Sprintf("r%d", i)
 		e.Aggs = append(e.Aggs, a)
+	}
+	if e.Having != nil && len(e.Aggs) > 0 && rapid.IntRange(0, 2).Draw(t, "having_by_alias") == 0 {
+		// HAVING names aggregates of the select list by their aliases
+		e.Having.byAlias(t, e.Aggs)
 	}
 	var sel []string
 	sel = append(sel, e.SelCols...)
